@@ -22,6 +22,14 @@ claim('C03', 'path-sensitive value numbering of _setitem / _setvalues_* (receive
       '_values only. Not which cells NumPy writes for a fancy index.',
       'Assumes np.asarray(x, dtype=) preserves shape and values representable in the target kind.', 'DESIGN.md §3 C03')
 
+claim('C04', 'registry/sibling check of the operator table + path-sensitive value numbering of operation() (pipeline order, name-based result axes) + NumPy stub resolution of reachable names',
+      'Decides structural clauses of C04: each of + - * / // ** has forward and reflected special methods bound to the matching ufunc with operand order '
+      'preserved; on the two-DimArray path with default options align (outer join over all dimensions) precedes align_dims precedes func applied to the '
+      'aligned operands\' values in order; result axes are copies taken from the aligned first operand with singleton placeholders replaced from the '
+      'second operand by name; scalar/ndarray short-cuts keep operand order and the DimArray\'s axes; defaults (outer join, op.reindex, op.broadcast) '
+      'are as the statement assumes; every NumPy name reachable from operation() exists in the pinned NumPy. Not the per-coordinate numerical result.',
+      'Assumes NumPy ufunc semantics and that the shipped stub files list the public NumPy names.', 'DESIGN.md §3 C04')
+
 UNDER_CONSTRUCTION = 'checker under construction in this session (claimed in DESIGN.md, not yet registered)'
 for pid in ['C01', 'C03', 'C04', 'C05', 'C06', 'C07', 'C08', 'C09', 'C10', 'C11', 'C12', 'C13', 'C14', 'C15', 'C16',
             'C17', 'C18', 'C19']:
